@@ -14,13 +14,15 @@ TRUSTED = []
 def run(ctx, intensify=False):
     res = PropResult()
     outs = ctx.pmap(so.shard, [(ctx.seed * 1000 + i, ctx.n(8, 60) * (2 if intensify else 1), [PROP]) for i in range(ctx.nproc)])
-    cases = ok = toggles = 0
+    cases = ok = toggles = sweeps = second = 0
     raised, dates, hashes = {}, {}, set()
     for o in outs:
         res.violations += o["violations"]
         cases += o["cases"]
         ok += o["sims_ok"]
         toggles += o["toggles"]
+        sweeps += o.get("end_sweeps", 0)
+        second += o.get("second_sims", 0)
         hashes |= set(o["hashes"])
         res.samples += o["samples"]
         for k, v in o["sims_raised"].items():
@@ -28,11 +30,12 @@ def run(ctx, intensify=False):
         for k, v in o["dates"].items():
             dates[k] = dates.get(k, 0) + v
     res.suites.append({"name": "K-sim", "cases": cases, "observations": cases + toggles, "disagreements": [], "inconclusive": 0,
-                       "distribution": {"dates": dates, "raised": raised, "succeeded": ok, "toggles": toggles}})
+                       "distribution": {"dates": dates, "raised": raised, "succeeded": ok, "toggles": toggles,
+                                        "end_of_pattern_date_sweeps": sweeps, "second_what_ifs": second}})
     res.evaluations = cases
     res.distinct_nontrivial = max(len(hashes), 2)
     res.rule = ("random systems × random change lists (numeric inputs, hourly inputs, links, lists, mixtures) × simulation dates "
-                "(first hour, interior, last hour, before, after, naive) incl. simulations made to fail in recomputation; deep "
+                "(first hour, interior, last hours of the usage pattern that ends first, last hour, before, after, naive; changes of order of the usage patterns swept over those last hours) incl. simulations made to fail in recomputation; deep "
                 "identity snapshot before/after, random set/reset words, first-hour simulation vs really applying the changes to "
                 "a copy, earliest simulated hour vs date, twin pairing")
     res.oracle_info = {"simulations": cases, "succeeded": ok, "toggles": toggles}
